@@ -457,14 +457,16 @@ printf("dgssvx: Fact=%4d, Trans=%4d, equed=%c\n",
 		      B->Mtype != SLU_GE )
 		*info = -13;
             }
-	    if ( X->ncol < 0 ) *info = -14;
-            else if ( X->ncol > 0 ) { /* no checking if X->ncol=0 */
-                 if ( Xstore->lda < SUPERLU_MAX(0, A->nrow) ||
-		      (B->ncol != 0 && B->ncol != X->ncol) ||
-                      X->Stype != SLU_DN ||
-		      X->Dtype != SLU_D || X->Mtype != SLU_GE )
-		*info = -14;
-            }
+	    if ( *info == 0 ) { /* do not overwrite -12 / -13 */
+		if ( X->ncol < 0 ||
+		     (B->ncol != 0 && B->ncol != X->ncol) ) *info = -14;
+		else if ( X->ncol > 0 ) { /* no further checking if X->ncol=0 */
+		    if ( Xstore->lda < SUPERLU_MAX(0, A->nrow) ||
+			 X->Stype != SLU_DN ||
+			 X->Dtype != SLU_D || X->Mtype != SLU_GE )
+			*info = -14;
+		}
+	    }
 	}
     }
     if (*info != 0) {
